@@ -246,10 +246,15 @@ const ctcpCfgVersion = "verif 1.0"
 // session returns the (lazily started) client of a table variant:
 // "0" default table; "1" default table, Config.Version set; "2" wildcard handler, a
 // handler for FOO, SOURCE cleared; "t" the session of suite ctcp.table (table rebuilt per case).
+// "3", "4", "5" and "u" (ctcp.table) are the default table plus application handlers that
+// rewrite the event they are handed before the CTCP stage runs: "3" foreground on PRIVMSG and
+// NOTICE, "4" foreground on ALL_EVENTS, "5" background on both, "u" foreground on both.
 func ctcpSession(variant string) *ctcpSess {
 	ctcpSessMu.Lock()
 	defer ctcpSessMu.Unlock()
-	if variant != "1" && variant != "2" && variant != "t" {
+	switch variant {
+	case "1", "2", "3", "4", "5", "t", "u":
+	default:
 		variant = "0"
 	}
 	if x := ctcpSesss[variant]; x != nil {
@@ -266,9 +271,47 @@ func ctcpSession(variant string) *ctcpSess {
 		s.C.CTCP.Set("foo", func(c *girc.Client, ev girc.CTCPEvent) { c.Cmd.Notice("foo", "f "+ev.Text) })
 		s.C.CTCP.Clear("source")
 	}
+	switch variant {
+	case "3":
+		s.C.Handlers.Add(girc.PRIVMSG, ctcpMutate)
+		s.C.Handlers.Add(girc.NOTICE, ctcpMutate)
+	case "4":
+		s.C.Handlers.Add(girc.ALL_EVENTS, ctcpMutate)
+	case "5":
+		s.C.Handlers.AddBg(girc.PRIVMSG, ctcpMutate)
+		s.C.Handlers.AddBg(girc.NOTICE, ctcpMutate)
+		s.C.Handlers.AddBg(girc.ALL_EVENTS, ctcpMutate)
+	case "u":
+		s.C.Handlers.Add(girc.PRIVMSG, ctcpMutate)
+		s.C.Handlers.Add(girc.NOTICE, ctcpMutate)
+		s.C.Handlers.Add(girc.ALL_EVENTS, ctcpMutate)
+	}
 	x := &ctcpSess{s: s}
 	ctcpSesss[variant] = x
 	return x
+}
+
+// ctcpMutate is an application handler that rewrites the event it was handed - its own copy,
+// as far as the documented contract goes: source, target, text, and one more parameter. If
+// RunHandlers let the CTCP stage decode what a handler has written to, automatic answers would
+// go to "mallory", quote "hijacked", or exist for messages that were not CTCP.
+func ctcpMutate(c *girc.Client, e girc.Event) {
+	if e.Command != girc.PRIVMSG && e.Command != girc.NOTICE {
+		return
+	}
+	if e.Source != nil {
+		e.Source.Name = "mallory"
+		e.Source.Ident = "evil"
+		e.Source.Host = "third.party"
+	}
+	if len(e.Params) > 0 {
+		e.Params[0] = "#elsewhere"
+	}
+	if len(e.Params) > 1 {
+		e.Params[1] = "\x01PING hijacked\x01"
+	}
+	e.Params = append(e.Params, "extra")
+	_ = e.Params
 }
 
 // quiesce waits until the goroutines started since `base` was taken have ended (the
@@ -589,7 +632,7 @@ func init() {
 		Prop: []string{"C14"},
 		Fixed: func() []Case {
 			var out []Case
-			for _, v := range []string{"0", "1", "2"} {
+			for _, v := range []string{"0", "1", "2", "3", "4", "5"} {
 				for _, k := range []string{"PRIVMSG", "NOTICE"} {
 					for _, c := range append(append(append([]string{}, ctcpKnown...), ctcpOtherOK...), "ping", "Version", "", "PI!NG") {
 						for _, t := range []string{"", " 12345", " a b"} {
@@ -607,11 +650,17 @@ func init() {
 		},
 		Gen: func(r *rand.Rand) Case {
 			v := "0"
-			switch r.Intn(6) {
+			switch r.Intn(10) {
 			case 0:
 				v = "1"
 			case 1:
 				v = "2"
+			case 2, 3:
+				v = "3"
+			case 4, 5:
+				v = "4"
+			case 6:
+				v = "5"
 			}
 			return append(Case{v}, genCTCPEvent(r, true)...)
 		},
@@ -768,6 +817,11 @@ func init() {
 				c = append(c, ops...)
 				return append(c, ev...)
 			}
+			mkm := func(ops []string, ev Case) Case {
+				c := mk(ops, ev)
+				c[0] += "m"
+				return c
+			}
 			evs := []Case{
 				caseOfEv(true, "nick", "PRIVMSG", "me", "\x01VERSION\x01"),
 				caseOfEv(true, "nick", "PRIVMSG", "me", "\x01FOO a b\x01"),
@@ -784,7 +838,7 @@ func init() {
 			}
 			for _, ops := range opss {
 				for _, ev := range evs {
-					out = append(out, mk(ops, ev))
+					out = append(out, mk(ops, ev), mkm(ops, ev))
 				}
 			}
 			return out
@@ -792,6 +846,9 @@ func init() {
 		Gen: func(r *rand.Rand) Case {
 			n := r.Intn(5)
 			c := Case{strconv.Itoa(n)}
+			if r.Intn(3) == 0 {
+				c[0] += "m"
+			}
 			for i := 0; i < n; i++ {
 				name := Pick(r, ctcpSetNames...)
 				switch k := r.Intn(10); {
@@ -812,11 +869,15 @@ func init() {
 			return append(c, ev...)
 		},
 		Run: func(c Case) Result {
-			if len(c) < 1 || len(c[0]) != 1 || c[0][0] < '0' || c[0][0] > '9' || len(c) < 1+int(c[0][0]-'0')+3 {
+			if len(c) < 1 || len(c[0]) < 1 || len(c[0]) > 2 || c[0][0] < '0' || c[0][0] > '9' || len(c) < 1+int(c[0][0]-'0')+3 {
 				return Result{Obs: "?args"}
 			}
 			n := int(c[0][0] - '0')
 			x := ctcpSession("t")
+			if len(c[0]) == 2 {
+				// "<n>m": the session whose application handlers rewrite their event
+				x = ctcpSession("u")
+			}
 			ct := x.s.C.CTCP
 			ct.ClearAll()
 			ref := map[string]string{} // reference table: key -> handler id ("d" = default replier)
@@ -1019,6 +1080,11 @@ func tableOracle(ref map[string]string, keys []string, e *girc.Event, lines []st
 	for _, l := range rest {
 		if !strings.HasPrefix(l, "NOTICE ") {
 			return "table-not-notice: an answer that is not a NOTICE"
+		}
+		if e.Source != nil && lineSafeName(e.Source.Name) {
+			if p := girc.ParseEvent(l); p == nil || len(p.Params) != 2 || specFold(p.Params[0]) != specFold(e.Source.Name) {
+				return "reply-target: the answer does not go to the requester"
+			}
 		}
 	}
 	return ""
